@@ -32,6 +32,12 @@ def run(chk):
     r3(chk, prog)
     r4(chk, prog, m)
     r5(chk, prog)
+    # the array container's slots hold owned references: every slot below length was written by the operation that raised
+    # length, and an occupied slot is released before it is overwritten (shared with C07)
+    ma = prog.module("arraylist.c")
+    chk.require(ma is not None, "arraylist.c not in the build")
+    c07.r_expand(chk, prog, ma)
+    c07.r_functions(chk, prog, ma)
     own.rule_leaks(chk, prog, "C05.R6", acquirers=own.NODE_ACQUIRERS, floor=25,
                    text="no orphaned node: a node reference held by a local of a library function (a constructor's result, a "
                         "reference taken with json_object_get, the slot a copy was built into) is released, returned or handed to a "
